@@ -46,9 +46,13 @@ def make_ds(rng, xr, fmt):
     f = np.unique(np.round(np.sort(rng.uniform(0.03, 0.6, nf)), fdec))
     if f.size < 3 or np.min(np.diff(f)) < 2e-4:
         f = np.round(np.linspace(0.04, 0.4, nf), fdec)
-    nd = int(rng.choice([4, 8, 12, 24, 36]))
+    nd = int(rng.choice([4, 8, 12, 24, 36, 16, 32, 64, 48]))        # incl. 22.5, 11.25, 5.625 and 7.5 degree bins
     dd = 360.0 / nd
-    th = float(rng.choice([0.0, dd / 2])) + dd * np.arange(nd)
+    th = float(rng.choice([0.0, dd / 2, 0.125, dd / 4 if nd != 64 else 0.0])) + dd * np.arange(nd)       # all exact at four decimals
+    if fmt == "funwave":
+        nd = int(rng.choice([4, 8, 12, 24, 36, 16]))        # Funwave writes directions with three decimals
+        dd = 360.0 / nd
+        th = float(rng.choice([0.0, dd / 2, 0.125])) + dd * np.arange(nd)
     if fmt == "octopus":
         nd = int(rng.choice([4, 8, 12, 24, 36]))
         dd = 360.0 / nd
